@@ -677,3 +677,59 @@ func derefsParamSomewhere(g *ssa.Function, i int) bool {
 	}
 	return false
 }
+
+// checkTypeGraphWalksLinear (R11.11, S1). A recursive walk over the type graph that guards against cycles with a set
+// scoped to the current path (`path.add(t); defer path.delete(t)`) and keeps no memory of finished nodes visits a type
+// once per path that leads to it: on a chain of n schemas whose two members both refer to the next one that is 2^n
+// visits (22 levels took 18 s before f2b30958; 40 never finish), i.e. generation is not bounded in any practical sense
+// for a document of a few kilobytes. The structural condition decided here, for every function that calls
+// (*walkpath).add: it either never removes what it added (the set is a visited set: every node at most once), or it also
+// records exhausted nodes with (*walkpath).markDone. Both forms are linear in the size of the graph.
+func checkTypeGraphWalksLinear(c *core.Ctx, prog *core.Prog) {
+	r := c.NewRule("R11.11", "S1", "walks over the type graph visit a shared subtree once (visited set, or path set plus a memo of finished nodes)", 2)
+	sp := prog.ByPath[pkgIR]
+	if sp == nil {
+		r.Undecided("load:gen/ir", "-", "package not loaded")
+		return
+	}
+	n := 0
+	for _, p := range prog.SSA.AllPackages() {
+		if p.Pkg == nil || !core.InModulePath(p.Pkg.Path()) {
+			continue
+		}
+		for _, top := range core.PkgFuncs(prog.SSA, p) {
+			calls := map[string]token.Pos{}
+			for _, fn := range core.AllFuncs(top) {
+				for _, call := range core.Calls(fn) {
+					name := core.CalleeName(call.Common())
+					for _, m := range []string{"add", "delete", "markDone"} {
+						if strings.HasSuffix(name, "/gen/ir.walkpath)."+m) {
+							if _, ok := calls[m]; !ok {
+								calls[m] = call.Pos()
+							}
+						}
+					}
+				}
+			}
+			addPos, adds := calls["add"]
+			if !adds || strings.HasSuffix(core.FuncName(top), "walkpath).add") {
+				continue
+			}
+			n++
+			_, deletes := calls["delete"]
+			_, memo := calls["markDone"]
+			key := "type-walk-linear:" + fnKeyFull(top)
+			switch {
+			case !deletes:
+				r.Pass(fmt.Sprintf("%s: what it adds stays in the set (visited set)", fnKeyFull(top)))
+			case memo:
+				r.Pass(fmt.Sprintf("%s: path set plus markDone for finished nodes", fnKeyFull(top)))
+			default:
+				r.Fail(key, c.Pos(addPos), fmt.Sprintf("%s walks the type graph with a path-scoped set (add + delete) and no memo of finished nodes: a type reachable over k paths is walked k times, 2^n for a chain of n schemas with two references each — generation of a small document does not finish", fnKeyFull(top)))
+			}
+		}
+	}
+	if n == 0 {
+		r.Undecided("anchor:walkpath.add", "-", "no caller of (*walkpath).add found")
+	}
+}
